@@ -288,8 +288,10 @@ class EllipsoidART(BaseART):
             radius = w[-1]
 
             angle = np.rad2deg(np.arctan2(major_axis[1], major_axis[0]))
-            height = radius * 2
-            width = self.params["mu"] * height
+            # matplotlib's width runs along `angle`, the direction of the major axis:
+            # the region reaches `radius` along it and mu * radius across
+            width = radius * 2
+            height = self.params["mu"] * width
 
             ellipsoids.append((centroid, width, height, angle))
 
